@@ -428,7 +428,16 @@ func (r *rec) fees() {
 	for _, cname := range cn {
 		exempt := configs[cname]
 		w := world.New(world.Config{Validators: 2, Actors: []string{"bank", "u1", "u2"}, MinGasPrices: fmt.Sprintf("%dFX", price), BypassTypes: exempt, BypassGas: allow})
-		if _, err := w.RealBlock(nil, nil, world.BlockTime); err != nil {
+		// the sender also owns a coin the node quotes no price for (a fee may name any denomination the payer holds)
+		if _, err := w.RealBlock(func(c sdk.Context) {
+			other := sdk.NewCoins(sdk.NewInt64Coin("othertoken", 1000))
+			if err := w.App.BankKeeper.MintCoins(c, "mint", other); err != nil {
+				panic(err)
+			}
+			if err := w.App.BankKeeper.SendCoinsFromModuleToAccount(c, "mint", w.A("u1").Acc(), other); err != nil {
+				panic(err)
+			}
+		}, nil, world.BlockTime); err != nil {
 			panic(err)
 		}
 		ctx := w.Committed()
@@ -463,9 +472,15 @@ func (r *rec) fees() {
 			n := uint64(len(l))
 			for _, gas := range []uint64{n*allow - 1, n * allow, n*allow + 1, 5_000_000} {
 				required := new(big.Int).Mul(big.NewInt(price), new(big.Int).SetUint64(gas))
-				for _, fk := range []string{"zero", "just-below", "equal", "above"} {
+				for _, fk := range []string{"zero", "just-below", "equal", "above", "other-denom-only", "just-below+other-denom", "equal+other-denom"} {
 					var fee sdk.Coins
 					switch fk {
+					case "other-denom-only":
+						fee = sdk.NewCoins(sdk.NewInt64Coin("othertoken", 1))
+					case "just-below+other-denom":
+						fee = sdk.NewCoins(sdk.NewCoin("FX", sdkmath.NewIntFromBigInt(new(big.Int).Sub(required, big.NewInt(1)))), sdk.NewInt64Coin("othertoken", 1))
+					case "equal+other-denom":
+						fee = sdk.NewCoins(sdk.NewCoin("FX", sdkmath.NewIntFromBigInt(required)), sdk.NewInt64Coin("othertoken", 1))
 					case "just-below":
 						fee = sdk.NewCoins(sdk.NewCoin("FX", sdkmath.NewIntFromBigInt(new(big.Int).Sub(required, big.NewInt(1)))))
 					case "equal":
@@ -493,7 +508,7 @@ func (r *rec) fees() {
 						panic(cerr)
 					}
 					// independent specification of the rule
-					paysEnough := fk == "equal" || fk == "above"
+					paysEnough := fk == "equal" || fk == "above" || fk == "equal+other-denom"
 					mayBypass := all && gas <= n*allow
 					name := fmt.Sprintf("%s msgs=%v gas=%d fee=%s", cname, l, gas, fk)
 					r.res.Outcomes[fmt.Sprintf("fee/%s/code=%d", map[bool]string{true: "may-enter", false: "must-be-refused"}[paysEnough || mayBypass], resp.Code)]++
